@@ -14,7 +14,8 @@ func (r *Router) proxy(w http.ResponseWriter, req *http.Request) {
 	r.Metrics.Increment(r.metricsNames.routerProxied)
 	r.Logger.Debug().Logf("proxying request for %s", req.URL.Path)
 	upstreamTarget := r.Config.GetHoneycombAPI()
-	forwarded := req.Header.Get("X-Forwarded-For")
+	// every X-Forwarded-For line the client sent, not only the first one
+	forwarded := strings.Join(req.Header.Values("X-Forwarded-For"), ", ")
 	// let's copy the request over to a new one and
 	// dispatch it upstream
 	defer req.Body.Close()
@@ -29,7 +30,7 @@ func (r *Router) proxy(w http.ResponseWriter, req *http.Request) {
 	upstreamReq = upstreamReq.WithContext(req.Context())
 	// copy over headers from upstream to the upstream service
 	for header, vals := range req.Header {
-		upstreamReq.Header.Set(header, strings.Join(vals, ","))
+		upstreamReq.Header[header] = append([]string(nil), vals...)
 	}
 	if forwarded != "" {
 		upstreamReq.Header.Set("X-Forwarded-For", forwarded+", "+req.RemoteAddr)
@@ -44,9 +45,13 @@ func (r *Router) proxy(w http.ResponseWriter, req *http.Request) {
 	}
 	// ok, we got a response, let's pass it along
 	defer resp.Body.Close()
-	// copy over headers
+	// copy over headers, one line per value (Set-Cookie values cannot be
+	// joined with commas). The Content-Type the middleware pre-set describes
+	// Refinery's own JSON answers: a relayed response has the upstream's or
+	// none (a nil entry also keeps net/http from sniffing one).
+	w.Header()["Content-Type"] = nil
 	for header, vals := range resp.Header {
-		w.Header().Set(header, strings.Join(vals, ","))
+		w.Header()[header] = append([]string(nil), vals...)
 	}
 	// copy over status code
 	w.WriteHeader(resp.StatusCode)
